@@ -332,150 +332,125 @@ impl Heap {
 
     /// Mark
     ///
-    /// Mark the given root vcell in the gc map, and recursively mark any of
-    /// its children.
+    /// Mark the given root vcell in the gc map, and mark any of its children.
+    /// The traversal keeps its own work list, so the depth of the object graph
+    /// (a list nested through car, a chain of closures) does not matter to the
+    /// native stack.
     ///
     /// # Arguments
     /// `root` - The root vcell to mark
     pub fn mark(&mut self, root: usize) {
-        let mut ptr = root;
-        loop {
+        let mut work = vec![root];
+        self.mark_from(&mut work);
+    }
+
+    /// Mark VCell
+    ///
+    /// Mark everything a value held outside of the heap (a register, a stack
+    /// slot, an environment slot) refers to.
+    pub fn mark_vcell(&mut self, vcell: &VCell) {
+        let mut work = vec![];
+        Self::push_references(vcell, &mut work);
+        self.mark_from(&mut work);
+    }
+
+    /// Mark Continuation
+    ///
+    /// Mark the saved VM state in the continuation
+    pub fn mark_continuation(&mut self, cont: &Continuation) {
+        let mut work = vec![];
+        Self::push_continuation_references(cont, &mut work);
+        self.mark_from(&mut work);
+    }
+
+    /// Mark Lambda
+    ///
+    /// Mark any value the lambda's byte code, arguments or environment map
+    /// refer to
+    pub fn mark_lambda(&mut self, lambda: &Lambda) {
+        let mut work = vec![];
+        Self::push_lambda_references(lambda, &mut work);
+        self.mark_from(&mut work);
+    }
+
+    /// Mark From
+    ///
+    /// Mark every vcell reachable from the vcells on the work list.
+    fn mark_from(&mut self, work: &mut Vec<usize>) {
+        while let Some(ptr) = work.pop() {
             let vcell = match self.heap.get(ptr) {
-                Some(vcell) => vcell.clone(),
-                None => {
-                    return;
-                }
+                Some(vcell) => vcell,
+                None => continue,
             };
 
             // Avoid cyclic graphs by following already marked paths
             if self.heap_map.is_marked(ptr) {
-                return;
-            } else {
-                self.heap_map.mark(ptr);
+                continue;
             }
-
-            //trace!("mark {} => {}", ptr, vcell);
-            match vcell {
-                VCell::Pair(car, cdr) => {
-                    self.mark(car);
-                    ptr = cdr;
-                }
-                VCell::Ptr(cdr) => {
-                    ptr = cdr;
-                }
-                VCell::Continuation(cont) => {
-                    self.mark_continuation(&cont);
-                }
-                VCell::Lambda(ptr) => {
-                    self.mark_lambda(&ptr);
-                }
-                VCell::Closure(lambda, env) => {
-                    self.mark(lambda);
-                    self.mark(env);
-                }
-                VCell::LexicalEnv(env) => {
-                    let env = env.as_ref();
-                    for it in 0..env.slot_len() {
-                        self.mark_vcell(&env.get(it));
-                    }
-                }
-                VCell::Vector(vector) => {
-                    for idx in 0..vector.len() {
-                        let vcell = vector.get(idx).unwrap();
-                        self.mark_vcell(&vcell);
-                    }
-                }
-                VCell::EnvironmentPointer(ptr) => self.mark(ptr),
-                VCell::Acc
-                | VCell::ArgumentCount(_)
-                | VCell::BasePointer(_)
-                | VCell::BasePointerOffset(_)
-                | VCell::Bool(_)
-                | VCell::Char(_)
-                | VCell::BuiltInProc(_)
-                | VCell::GlobalEnvSlot(_)
-                | VCell::LexicalEnvSlot(_)
-                | VCell::LexicalEnvPtr(_, _)
-                | VCell::InstructionPointer(_, _)
-                | VCell::Nil
-                | VCell::Number(_)
-                | VCell::OpCode(_)
-                | VCell::String(_)
-                | VCell::Symbol(_)
-                | VCell::Macro(_)
-                | VCell::Undefined
-                | VCell::Void => {}
-            }
+            self.heap_map.mark(ptr);
+            Self::push_references(vcell, work);
         }
     }
 
-    pub fn mark_vcell(&mut self, vcell: &VCell) {
+    /// Push References
+    ///
+    /// Push every heap reference held by vcell on the work list.
+    fn push_references(vcell: &VCell, work: &mut Vec<usize>) {
         match vcell {
-            VCell::InstructionPointer(lambda, _) => {
-                self.mark(*lambda);
-            }
-            VCell::Continuation(cont) => {
-                self.mark_continuation(cont);
-            }
-            VCell::Lambda(lambda) => self.mark_lambda(lambda.as_ref()),
-            VCell::Closure(lambda, env) => {
-                self.mark(*lambda);
-                self.mark(*env)
-            }
             VCell::Pair(car, cdr) => {
-                self.mark(*car);
-                self.mark(*cdr);
+                work.push(*car);
+                work.push(*cdr);
             }
-            VCell::Ptr(ptr) => {
-                self.mark(*ptr);
+            VCell::Ptr(ptr)
+            | VCell::LexicalEnvPtr(ptr, _)
+            | VCell::EnvironmentPointer(ptr)
+            | VCell::InstructionPointer(ptr, _) => work.push(*ptr),
+            VCell::Closure(lambda, env) => {
+                work.push(*lambda);
+                work.push(*env);
             }
-            VCell::LexicalEnvPtr(ptr, _) => {
-                self.mark(*ptr);
+            VCell::Continuation(cont) => Self::push_continuation_references(cont, work),
+            VCell::Lambda(lambda) => Self::push_lambda_references(lambda, work),
+            VCell::LexicalEnv(env) => {
+                for it in 0..env.slot_len() {
+                    Self::push_references(&env.get(it), work);
+                }
             }
             VCell::Vector(vector) => {
                 for idx in 0..vector.len() {
-                    let vcell = vector.get(idx).unwrap();
-                    self.mark_vcell(&vcell);
+                    Self::push_references(&vector.get(idx).unwrap(), work);
                 }
             }
-            VCell::EnvironmentPointer(ep) => self.mark(*ep),
             VCell::Acc
             | VCell::ArgumentCount(_)
             | VCell::BasePointer(_)
             | VCell::BasePointerOffset(_)
             | VCell::Bool(_)
             | VCell::Char(_)
+            | VCell::BuiltInProc(_)
             | VCell::GlobalEnvSlot(_)
-            | VCell::LexicalEnv(_)
             | VCell::LexicalEnvSlot(_)
             | VCell::Nil
             | VCell::Number(_)
             | VCell::OpCode(_)
             | VCell::String(_)
             | VCell::Symbol(_)
-            | VCell::BuiltInProc(_)
             | VCell::Macro(_)
             | VCell::Undefined
             | VCell::Void => {}
         }
     }
 
-    /// Mark Continuation
-    ///
-    /// Iterate the saved VM state in the continuation
-    pub fn mark_continuation(&mut self, cont: &Continuation) {
+    fn push_continuation_references(cont: &Continuation, work: &mut Vec<usize>) {
         for it in cont.stack().iter() {
-            self.mark_vcell(it);
+            Self::push_references(it, work);
         }
-        self.mark(cont.ip().0);
-        self.mark(cont.ep());
+        work.push(cont.ip().0);
+        work.push(cont.ep());
     }
 
-    /// Mark Lambda
-    ///
-    /// Iterate the lambda byte code and mark any value that contains a reference type
-    pub fn mark_lambda(&mut self, lambda: &Lambda) {
-        // Mark every bytecode cell, except the operands of JMP and JNT: those
+    fn push_lambda_references(lambda: &Lambda, work: &mut Vec<usize>) {
+        // Every bytecode operand, except the operands of JMP and JNT: those
         // are offsets into this lambda's bytecode, not references into the heap
         let mut is_offset = false;
         for it in &lambda.bc {
@@ -485,21 +460,21 @@ impl Heap {
                 }
                 operand => {
                     if !is_offset {
-                        self.mark_vcell(operand);
+                        Self::push_references(operand, work);
                     }
                     is_offset = false;
                 }
             }
         }
 
-        // Mark every argument (symbol)
+        // Every argument (symbol)
         for it in &lambda.args {
-            self.mark_vcell(it);
+            Self::push_references(it, work);
         }
 
-        // Mark every symbol the envmap refers to
+        // Every symbol the envmap refers to
         for it in lambda.envmap.get_map().iter() {
-            self.mark_vcell(&it.0);
+            Self::push_references(&it.0, work);
         }
     }
 
